@@ -107,6 +107,16 @@ fn check_positions(t: &Tree, label: &str) -> Option<Witness> {
     let mut cases: Vec<(&str, String, &str, &str)> = vec![];   // (position, sql, text before the predicate, text after it)
     cases.push(("HAVING", Query::select().column(a("x")).from(a("t")).cond_having(cond(t)).to_string(PostgresQueryBuilder), " HAVING ", ""));
     cases.push(("UPDATE WHERE", Query::update().table(a("t")).value(a("x"), 1).cond_where(cond(t)).to_string(PostgresQueryBuilder), " WHERE ", ""));
+    // UPDATE with extra tables: Postgres keeps WHERE after FROM; MySQL has no UPDATE .. FROM - the condition must still be rendered, ONCE
+    // (in JOIN .. ON or in WHERE), whatever the number of extra tables
+    cases.push(("UPDATE FROM WHERE", Query::update().table(a("t")).value(a("x"), 1).from(a("u")).from(a("v")).cond_where(cond(t)).to_string(PostgresQueryBuilder), " WHERE ", ""));
+    for n in 1..=2usize {
+        let mut u = Query::update(); u.table(a("t")).value(a("x"), 1).cond_where(cond(t));
+        for f in ["u", "v"].iter().take(n) { u.from(a(f)); }
+        let sql = u.to_string(MysqlQueryBuilder).replace('`', "\"");
+        let (before, after) = if sql.contains(" ON ") { (" ON ", " SET ") } else { (" WHERE ", "") };
+        cases.push((if n == 1 { "UPDATE JOIN (mysql, 1 table)" } else { "UPDATE JOIN (mysql, 2 tables)" }, sql, before, after));
+    }
     cases.push(("DELETE WHERE", Query::delete().from_table(a("t")).cond_where(cond(t)).to_string(PostgresQueryBuilder), " WHERE ", ""));
     cases.push(("JOIN ON", Query::select().column(a("x")).from(a("t")).inner_join(a("u"), cond(t)).to_string(PostgresQueryBuilder), " ON ", ""));
     cases.push(("CASE WHEN", Query::select().expr(Expr::case(cond(t), 1).finally(0)).from(a("t")).to_string(PostgresQueryBuilder), "WHEN (", ") THEN "));
@@ -114,7 +124,7 @@ fn check_positions(t: &Tree, label: &str) -> Option<Witness> {
         let rest = match sql.split_once(before) { Some((_, r)) => r, None => {
             // an empty `all` group means TRUE: no predicate at all is equivalent for WHERE / HAVING
             let env = [TV::T, TV::T, TV::T];
-            if matches!(pos, "HAVING" | "UPDATE WHERE" | "DELETE WHERE") && [TV::T, TV::F, TV::U].iter().all(|x| sem(t, &[*x, *x, *x]) == TV::T) && sem(t, &env) == TV::T { continue; }
+            if matches!(pos, "HAVING" | "UPDATE WHERE" | "DELETE WHERE" | "UPDATE FROM WHERE" | "UPDATE JOIN (mysql, 1 table)" | "UPDATE JOIN (mysql, 2 tables)") && [TV::T, TV::F, TV::U].iter().all(|x| sem(t, &[*x, *x, *x]) == TV::T) && sem(t, &env) == TV::T { continue; }
             return Some(Witness { property: "C06", input: format!("{pos}: {label}"), observed: format!("no predicate in {sql}"), expected: "a predicate".into() }) } };
         let pred = if after.is_empty() { rest } else { match rest.rsplit_once(after) { Some((p, _)) => p, None => rest } };
         let vals = [TV::T, TV::F, TV::U];
@@ -199,7 +209,7 @@ pub fn check_one(label: &str) -> Option<Witness> {
     if label.contains("chain#") { return search_mode("").into_iter().find(|w| w.input == label); }
     let ts = trees(2);
     if let Some((pos, rest)) = label.split_once(": [") {
-        if ["HAVING", "UPDATE WHERE", "DELETE WHERE", "JOIN ON", "CASE WHEN"].contains(&pos) {
+        if ["HAVING", "UPDATE WHERE", "DELETE WHERE", "JOIN ON", "CASE WHEN", "UPDATE FROM WHERE", "UPDATE JOIN (mysql, 1 table)", "UPDATE JOIN (mysql, 2 tables)"].contains(&pos) {
             let i: usize = rest.split(']').next()?.parse().ok()?;
             return check_positions(ts.get(i)?, &format!("[{}", rest));
         }
